@@ -835,25 +835,16 @@ Proof.
 Qed.
 
 (* ------------------------------------------------------------------ *)
-(* 8. What is NOT proved (kept here so that it cannot be weakened quietly).
-   FULL STATEMENTS (DESIGN §5 C01 / Appendix A):
-     parse_write_table :
-       forall ts rs, valid_tuples ts rs -> nlen rs < 2^32 -> (record lengths, crcs < 2^32, total_unc rs < 2^64) ->
-         parse_index (write_table_with ts rs) = Some (build_pindex ts rs).
-     store_refines_map :
-       forall content ops, consistent_ops content ops -> forall cfg memsz,
-         oracle (cfg, memsz, ops) (model_obs (cfg, memsz, ops)) = true
-       (every Get / Has / GetMany / GetManyCompressed / HasMany / IterateAllChunks answer of the
-        store state machine is the abstract map's answer; the map changes only by accepted puts).
-   PROVED ABOVE: the table-level and tableSet-level facts these rest on
-     (lookup_write_index, lookup_any, has_many_spec, find_offsets_spec, table_get_written,
-      table_has_written, tableset_has_many_spec) over the structured index build_pindex ts rs.
-   MISSING: the byte-level decode of the index block (be_dec_enc, length lemmas and record_at are
-     proved; the split_n / sub arithmetic over the three index regions is not), the memtable /
-     flush-with-has-filter / generation invariants, iterate_all as a permutation.
-   These rest on the correspondence: the executable model runs write_table, parse_index and every
-   search byte-for-byte and is compared with real stores; the oracle is evaluated on every
-   implementation observation. *)
+(* 8. Continued in ProofsBytes.v (parse_write_table: the byte-level decode),
+   ProofsSort.v (sorted permutations are unique), ProofsTable.v (hasMany / getMany /
+   iterateAllChunks of a table opened from written bytes), ProofsStore*.v
+   (store_refines_map: the whole store state machine refines the abstract map;
+   reads_agree).
+   Still NOT proved for C01: batches_cover (read batching arithmetic, IO only);
+   journal and archive sources inside a store; the codec-generic form of the final
+   simulation (the table- and store-level lemmas are generic in crc / compress /
+   decompress; the last induction over run_ops is for the instance the correspondence
+   runs, crc0 / comp0 / decomp0). *)
 
 (* History: GenerationalNBS.HasMany with ghostGen == nil used to report nothing
    absent (`len(absent) == 0 || gcs.ghostGen == nil` returned nil); found by this
